@@ -168,7 +168,14 @@ def _shard_inner(prop_id, tier, seed, shard, nshards):
           "buckets": {}, "samples": [], "known_hits": collections.Counter(), "exh_evaluations": 0,
           "hyp_evaluations": 0}
 
+    precheck = getattr(mod, "precheck", None)
+
     def execute(case, origin):
+        if precheck is not None:
+            err = precheck(case)
+            if err:
+                raise RuntimeError("generator produced an input outside the property's domain: %s\n%s"
+                                   % (err, json.dumps(abbreviate(case))[:1500]))
         st["evaluations"] += 1
         st[origin] += 1
         out = mod.run_case(case)
@@ -267,43 +274,20 @@ def _delete(x, path):
     return x
 
 
-def _candidates(case, keys):
-    """Smaller variants of `case`, biggest cuts first."""
-    for key in keys:
-        sub = case.get(key)
-        if sub is None:
-            continue
-        paths = list(_paths(sub))
-        # deletions of list items / dict keys, outermost first
-        for p in paths:
-            if not p:
-                continue
-            yield {**case, key: _delete(sub, p)}
-        for p in paths:
-            v = _get(sub, p)
-            if isinstance(v, str) and v:
-                lines = v.splitlines(True)
-                if len(lines) > 1:
-                    for i in range(len(lines)):
-                        yield {**case, key: _set(sub, p, "".join(lines[:i] + lines[i + 1:]))}
-                if len(v) > 1:
-                    yield {**case, key: _set(sub, p, v[:len(v) // 2])}
-                    yield {**case, key: _set(sub, p, v[len(v) // 2:])}
-                    yield {**case, key: _set(sub, p, v[:-1])}
-            elif isinstance(v, list) and len(v) > 1 and p:
-                yield {**case, key: _set(sub, p, [])}
-            elif isinstance(v, dict) and len(v) > 1 and p:
-                yield {**case, key: _set(sub, p, {})}
-
-
 def shrink_case(mod, case, key, max_evals):
-    """Greedy structural minimisation: keep a smaller case while the same bucket still fires."""
+    """Structural minimisation: keep a smaller case while the same bucket still fires. Deletions go level by level
+    (whole cells before their fields), siblings in reverse order so indexes stay valid; then strings are shortened
+    and containers emptied. Bounded by evaluations, not time."""
     keys = getattr(mod, "SHRINK_KEYS", None)
     if not keys:
         return case, 0
     valid = getattr(mod, "valid", lambda c: True)
+    state = {"evals": 0}
 
     def fires(c):
+        if state["evals"] >= max_evals:
+            return False
+        state["evals"] += 1
         try:
             if not valid(c):
                 return False
@@ -312,19 +296,57 @@ def shrink_case(mod, case, key, max_evals):
             return False
         return any(bucket_key(f) == key for f in out.failures)
 
-    evals = 0
     progress = True
-    while progress and evals < max_evals:
+    while progress and state["evals"] < max_evals:
         progress = False
-        for cand in _candidates(case, keys):
-            if evals >= max_evals:
-                break
-            evals += 1
-            if fires(cand):
-                case = cand
-                progress = True
-                break
-    return case, evals
+        for k in keys:
+            if case.get(k) is None:
+                continue
+            depth = 1
+            while state["evals"] < max_evals:
+                paths = [p for p in _paths(case[k]) if len(p) == depth]
+                if not paths:
+                    break
+                for p in reversed(paths):
+                    try:
+                        cand = {**case, k: _delete(case[k], p)}
+                    except (KeyError, IndexError, TypeError):
+                        continue
+                    if fires(cand):
+                        case = cand
+                        progress = True
+                depth += 1
+            # simplify leaves
+            for p in list(_paths(case[k])):
+                if state["evals"] >= max_evals:
+                    break
+                try:
+                    v = _get(case[k], p)
+                except (KeyError, IndexError, TypeError):
+                    continue
+                cands = []
+                if isinstance(v, str) and v:
+                    lines = v.splitlines(True)
+                    if len(lines) > 1:
+                        cands += ["".join(lines[:i] + lines[i + 1:]) for i in range(len(lines))]
+                    if len(v) > 1:
+                        cands += [v[:len(v) // 2], v[len(v) // 2:], v[:-1], v[1:]]
+                    else:
+                        cands += [""]
+                elif isinstance(v, list) and len(v) > 0 and p:
+                    cands += [[]]
+                elif isinstance(v, dict) and len(v) > 0 and p:
+                    cands += [{}]
+                for nv in cands:
+                    try:
+                        cand = {**case, k: _set(case[k], p, nv)}
+                    except (KeyError, IndexError, TypeError):
+                        continue
+                    if fires(cand):
+                        case = cand
+                        progress = True
+                        break
+    return case, state["evals"]
 
 
 # ----------------------------------------------------------------------------- evidence
